@@ -197,6 +197,99 @@ def pair_positions(ctx):
     ctx.ob("R08.8", "count", n >= 1, "rebuilt pairs checked: %d" % n, nontrivial=False)
 
 
+def instance_registration(ctx):
+    """R08.10: a named instance that is imported or exported inside a type scope (or at the root) is what later items alias
+    their used types from.  Every encoder function that can emit an `Instance` import/export records the new instance index
+    in `Scope::instances` (sibling agreement import / export / import_deps); and an `Instance` *import* is emitted only
+    after `Scope::instances` was consulted (in the function or by every caller), so an interface already imported as a
+    dependency is not imported a second time under the same name."""
+    db, prov = ctx.db, ctx.prov
+    callers = db.callers()
+    n = 0
+    for f in sorted(db.fns.values(), key=lambda x: x.id):
+        if f.crate != "wac_graph" or f.from_expansion or "{closure" in f.id or f.id.startswith("wac_graph::encoding::Encodable::"):
+            continue
+        emits = []
+        for t in f.calls():
+            nm = (t.path or "").rsplit("::", 1)[-1]
+            if nm not in ("import_type", "export_type", "import", "export") or not t.args:
+                continue
+            if not ((t.path or "").startswith(("wac_graph::encoding::", "wasm_encoder::"))):
+                continue
+            sl = prov.slice(f, t.args[-1])
+            if any((a or "").endswith("ComponentTypeRef") and v == "Instance" for a, v in sl.aggs):
+                emits.append((t, nm))
+        if not emits:
+            continue
+        ctx.touch(f)
+        cfg = CFG(f)
+        ins = [t for t in f.calls() if (t.path or "").rsplit("::", 1)[-1] in ("insert", "entry") and narrow(prov, f, t.args[0]).has_field("instances", "encoding::Scope")]
+        n += 1
+        short = f.id.split("::", 1)[1]
+
+        def closes_scope(t):
+            """the emission is the last thing written into its scope: the next encoder call on every path is State::pop"""
+            seen, work = set(), [t.target] if t.target is not None else []
+            while work:
+                b = work.pop()
+                if b in seen:
+                    continue
+                seen.add(b)
+                tt = cfg.blocks[b].term
+                if tt.k == "call" and (tt.path or "").startswith("wac_graph::encoding::"):
+                    if not (tt.path or "").endswith("State::pop"):
+                        return False
+                    continue
+                if tt.k == "return":
+                    return False
+                work.extend(cfg.succ[b])
+            return bool(seen)
+        if not ins and all(closes_scope(t) for t, _ in emits):
+            ctx.ob("R08.10", "registers|" + short, True, "the instance is the last item of its scope (the scope is popped right after): nothing can alias from it", nontrivial=False)
+            continue
+        ctx.ob("R08.10", "registers|" + short, bool(ins),
+               "the emitted instance is recorded in Scope::instances for the items that alias from it" if ins else
+               "%s can emit a named instance (%s) but never records it in Scope::instances: a later item that uses one of its types re-imports the interface as a dependency "
+               "(an import the real component does not have) instead of aliasing from this instance" % (short, "/".join(sorted({nm for _, nm in emits}))),
+               site="%s in %s" % (emits[0][0].span, f.id))
+        imports = [t for t, nm in emits if nm in ("import_type", "import")]
+        if imports:
+            def consulted(g, before_bb):
+                cg = CFG(g)
+                return any((l.path or "").rsplit("::", 1)[-1] in ("contains_key", "get", "get_full", "entry") and narrow(prov, g, l.args[0]).has_field("instances", "encoding::Scope")
+                           and cg.reaches(l.bb, before_bb) and l.bb != before_bb for l in g.calls())
+            ok = all(consulted(f, t.bb) for t in imports)
+            if not ok:
+                sites = [(g, c) for g in (db.fns.get(x) for x in callers.get(f.id, ())) if g is not None for c in g.calls() if c.path == f.id]
+                ok = bool(sites) and all(consulted(g, c.bb) for g, c in sites)
+            ctx.ob("R08.10", "import-once|" + short, ok,
+                   "an instance is imported only after Scope::instances was consulted" if ok else
+                   "%s imports a named instance without looking at Scope::instances (neither it nor its callers do): an interface already imported as a dependency of an earlier "
+                   "`use` is imported again under the same name and the output is invalid" % short, site="%s in %s" % (imports[0].span, f.id))
+    ctx.ob("R08.10", "count", n >= 3, "functions that emit named instances: %d" % n, nontrivial=False)
+
+
+def resource_identity(ctx):
+    """R08.11: inside a scope the encoder must tell resources apart by identity.  `Scope::resources` maps a key to the type
+    index a resource got in the scope being written; if that key is the resource's *name*, two different resources that are
+    both called `r` (one used from interface a, one from interface b under another local name) resolve to the same index and
+    the written type equates them."""
+    db = ctx.db
+    a = db.adts.get("wac_graph::encoding::Scope")
+    if not a:
+        ctx.lost("R08.11", "wac_graph::encoding::Scope")
+        return
+    ty = next((fl["ty"] for v in a["variants"] for fl in v["fields"] if fl["name"] == "resources"), None)
+    if ty is None:
+        ctx.lost("R08.11", "Scope::resources")
+        return
+    by_name = "alloc::string::String" in ty.split(",")[0]
+    ctx.ob("R08.11", "resources-keyed-by-identity", not by_name,
+           "Scope::resources is keyed by %s" % ty.split(",")[0].split("<")[-1] if not by_name else
+           "Scope::resources is keyed by the resource's *name* (%s): distinct resources with the same name in one scope share an entry, so a renamed `use` of b's `r` next to a's `r` "
+           "is written as `(eq a.r)`" % ty, site=a.get("span", ""))
+
+
 def run(ctx):
     db, prov = ctx.db, ctx.prov
     struct_conversions(ctx)
@@ -218,6 +311,8 @@ def run(ctx):
         ctx.ob("R08.6", "total|TypeEncoder::" + name, ok, "every ItemKind a world can import/export is re-encoded (no panicking fallback)" if ok else
                "TypeEncoder::%s does not handle %s (panicking arms: %d)" % (name, sorted(want - got), len(panics)), site=f.span)
     pair_positions(ctx)
+    instance_registration(ctx)
+    resource_identity(ctx)
     c01.alias_reset(c01.ctx_alias(ctx, "R08.7"))
     c01.index_capture(c01.ctx_alias(ctx, "R08.7"))
     import cachewriters
